@@ -1,5 +1,5 @@
 """ELF symbol rules (C18): W2 macro/domain pairing, Z1-elf writer/reader tables per machine."""
-from zw import walk, walk_nolambda, unwrap, short, Broken, calls, field_chain
+from zw import walk, walk_nolambda, unwrap, short, Broken, calls, field_chain, expand_locals
 from r_scope import switch_groups
 from r_tables import reader_table, intval, strval
 
@@ -29,6 +29,7 @@ def w2(prog):
                 val, dom = x["a"][1], x["a"][2]
             if val is None:
                 continue
+            val, dom = expand_locals(val, body), expand_locals(dom, body)
             fam = _macro_family(val)
             if fam is None:
                 continue
@@ -70,23 +71,16 @@ def w2(prog):
                 if r1 != r2:
                     findings.append({"key": "W2:%s:%s:machine" % (f["q"], fam), "where": x.get("l"),
                                      "msg": "the machine used to pick the %s domain comes from `%s`, not from the symbol's own context `%s`" % (want.upper(), r2, r1), "detail": None})
-            elif isinstance(m, dict) and m.get("k") == "ref" and m.get("d") == "local":
+            elif isinstance(m, dict) and m.get("k") == "call" and m.get("fn") == "zw_value_dwarf_machine":
                 # CLI: machine = zw_value_dwarf_machine (zw_value_elfsym_dwarf (&val)) ; sym = zw_value_elfsym_symbol (&val)
-                decls = {v["id"]: v for y in walk(body) if y.get("k") == "decl" for v in y["vars"]}
-                mi = unwrap(decls[m["id"]].get("init")) if m["id"] in decls else None
-                ok = isinstance(mi, dict) and mi.get("fn") == "zw_value_dwarf_machine"
-                if ok:
-                    dwv = unwrap(mi["a"][0])
-                    di = unwrap(decls[dwv["id"]].get("init")) if isinstance(dwv, dict) and dwv.get("id") in decls else None
-                    ok = isinstance(di, dict) and di.get("fn") == "zw_value_elfsym_dwarf"
-                    symroot = None
-                    for y in walk(val):
-                        if y.get("k") == "ref" and y.get("id") in decls:
-                            si = unwrap(decls[y["id"]].get("init"))
-                            if isinstance(si, dict) and si.get("fn") == "zw_value_elfsym_symbol":
-                                symroot = short(si["a"][0])
-                    info["symbol_object"], info["machine_object"] = symroot, short(di["a"][0]) if ok else None
-                    ok = ok and symroot == short(di["a"][0])
+                dwv = unwrap(m["a"][0]) if m.get("a") else None
+                ok = isinstance(dwv, dict) and dwv.get("k") == "call" and dwv.get("fn") == "zw_value_elfsym_dwarf"
+                symroot = None
+                for y in walk(val):
+                    if y.get("k") == "call" and y.get("fn") == "zw_value_elfsym_symbol" and y.get("a"):
+                        symroot = short(y["a"][0])
+                info["symbol_object"], info["machine_object"] = symroot, short(dwv["a"][0]) if ok else None
+                ok = ok and symroot is not None and symroot == short(dwv["a"][0])
                 if not ok:
                     findings.append({"key": "W2:%s:%s:machine" % (f["q"], fam), "where": x.get("l"),
                                      "msg": "the machine used to pick the %s domain is not derived from the symbol's own Dwarf" % want.upper(), "detail": None})
@@ -185,6 +179,7 @@ def w2b(prog):
                 val, dom = x["a"][1], x["a"][2]
             if val is None:
                 continue
+            val, dom = expand_locals(val, f.get("body")), expand_locals(dom, f.get("body"))
             d = unwrap(dom)
             if isinstance(d, dict) and d.get("k") == "un" and d.get("op") == "&":
                 d = unwrap(d["e"])
